@@ -353,7 +353,26 @@ def _frame_formulas(ctx: Ctx) -> None:
         def iterate(self, it_, value, node):
             if isinstance(value, DF) and value.ops and value.ops[-1].startswith('iterrows'):
                 return [(0, entry)]
+            if isinstance(value, CT) and value.op == 'col' and isinstance(value.args[0], DF) and value.args[0].name == 'results':
+                return [CT('col', entry, value.args[1])]       # element of a column = that column of the generic row
             return NOT_HANDLED
+
+        def call(self, it_, func, args, kwargs, node, env):
+            if isinstance(func, Ext) and func.name in ('numpy.array', 'numpy.asarray', 'builtins.list') and args \
+                    and isinstance(args[0], list) and len(args[0]) == 1 and isinstance(args[0][0], CT):
+                return args[0][0]                              # [f(x) for x in column] gathered into an array again
+            if isinstance(func, Ext) and func.name in ('builtins.list', 'numpy.array', 'numpy.asarray') and args \
+                    and isinstance(args[0], CT):
+                return args[0]
+            return super().call(it_, func, args, kwargs, node, env)
+
+    def rowwise(t):
+        """columns of the results frame read per row"""
+        if isinstance(t, CT):
+            if t.op == 'col' and isinstance(t.args[0], DF) and t.args[0].name == 'results':
+                return CT('col', entry, t.args[1])
+            return CT(t.op, *[rowwise(a) for a in t.args])
+        return t
     hooks = HIter()
     it = Interp(m, hooks)
 
@@ -366,7 +385,8 @@ def _frame_formulas(ctx: Ctx) -> None:
     outs = guard('R15.3', ami, fn)(lambda: it.explore(thunk))
     se_calls = [c for c in hooks.calls if c[0] == 'get_standard_error']
     ctx.need(len(se_calls) == 1, 'R15.3', site_of(ami, fn), f'calculate_total_error_rates: standard error calls {hooks.calls!r}')
-    est, ntr = se_calls[0][1][:2]
+    est0, ntr = se_calls[0][1][:2]
+    est, ntr = rowwise(est0), rowwise(ntr)
     syms = {}
     lhs = to_sympy(est, syms)
     mean_sym = syms.get(repr(CT('mean', CT('col', entry, 'success'))))
@@ -380,7 +400,7 @@ def _frame_formulas(ctx: Ctx) -> None:
         todo.append((A.add(lhs, f'1 - {mean_sym}', sorted(syms.values())), site_of(ami, fn), 'p_est = 1 - mean(success)',
                      'calculate_total_error_rates|estimator', repr(est)))
     ctx.ob('R15.3', site_of(ami, fn), 'p_se = get_standard_error(p_est, n_trials of the same entry)',
-           ntr == CT('col', entry, 'n_trials') and est is se_calls[0][1][0], f'second argument {ntr!r}',
+           ntr == CT('col', entry, 'n_trials') and est0 is se_calls[0][1][0], f'second argument {ntr!r}',
            key='calculate_total_error_rates|se-args', facts=repr(ntr))
 
     # calculate_sector_thresholds
@@ -465,7 +485,14 @@ def _provenance(fn) -> Dict[str, Set[Tuple]]:
     def src_of(e: ast.AST) -> Set[Tuple]:
         if isinstance(e, ast.Call):
             f = ast.unparse(e.func).split('.')[-1]
+            # representation changes are transparent: list(x), np.array(x), x.tolist(), x.to_numpy(), x.copy() ...
+            if f in ('list', 'tuple', 'array', 'asarray', 'Series') and e.args and not isinstance(e.args[0], ast.Constant):
+                return src_of(e.args[0])
+            if f in ('tolist', 'to_numpy', 'copy', 'astype', 'to_list') and isinstance(e.func, ast.Attribute):
+                return src_of(e.func.value)
             return {(f, None)}
+        if isinstance(e, (ast.ListComp, ast.GeneratorExp)):
+            return src_of(e.elt)
         if isinstance(e, ast.Name):
             return set(prov.get(e.id, set()))
         if isinstance(e, ast.Attribute) and ast.unparse(e) in ('np.nan', 'numpy.nan'):
@@ -494,6 +521,8 @@ def _provenance(fn) -> Dict[str, Set[Tuple]]:
                     for i, e in enumerate(t.elts):
                         if isinstance(e, ast.Name):
                             upd.append((e.id, {(f, i)}))
+                        elif isinstance(e, ast.Subscript) and isinstance(e.value, ast.Name):
+                            upd.append((e.value.id, {(f, i)}))     # a[i, j], b[i, j] = f(...)
                 elif isinstance(t, ast.Subscript) and isinstance(t.value, ast.Name):
                     upd.append((t.value.id, src_of(n.value)))
             elif isinstance(n, ast.Call) and isinstance(n.func, ast.Attribute) and n.func.attr == 'append' \
@@ -505,6 +534,7 @@ def _provenance(fn) -> Dict[str, Set[Tuple]]:
                 if new != old:
                     prov[name] = new
                     changed = True
+    prov['__src_of__'] = src_of           # type: ignore
     return prov
 
 
@@ -532,15 +562,11 @@ def _r154(ctx: Ctx) -> None:
                 is_est = col.endswith('_est') or '_est_' in col
                 if not (is_se or is_est):
                     continue
-                srcs = set()
-                v = n.value
-                if isinstance(v, ast.Name):
-                    srcs = prov.get(v.id, set())
-                elif isinstance(v, ast.Call):
-                    srcs = {(ast.unparse(v.func).split('.')[-1], None)}
-                else:
-                    srcs = {('expr', ast.unparse(v))}
+                srcs = prov['__src_of__'](n.value)
                 n_cols += 1
+                if not srcs:
+                    raise AnalysisError('R15.4', site_of(ami, n), f"Analysis.{mname}: provenance of column '{col}' not followed "
+                                                                  f"({norm_stmt(n)})")
                 if is_se:
                     ok = bool(srcs) and srcs <= SE_SOURCES
                     ctx.ob('R15.4', site_of(ami, n), f"Analysis.{mname}: column '{col}' derives from the standard-error "
